@@ -395,6 +395,8 @@ def lines_of(trace, nthreads):
 
 
 def run_cases(ctx, n, model=True):
+    import time
+    t0 = time.time()
     world = World(ctx)
     all_lines, all_expect, owners = [], [], []
     for _ in range(n):
@@ -418,8 +420,10 @@ def run_cases(ctx, n, model=True):
             all_lines += ls
             all_expect += ex
             owners += [case] * len(ls)
+    common.log("C22: %d traces run in %.1fs" % (n, time.time() - t0))
     if model and all_lines:
         out = ctx.driver(all_lines)
+        common.log("C22: model replayed %d lines at %.1fs" % (len(all_lines), time.time() - t0))
         for line, o, e, case in zip(all_lines, out, all_expect, owners):
             if o != e:
                 ctx.disagree(case, e, o, "trace event %r" % line)
@@ -427,15 +431,27 @@ def run_cases(ctx, n, model=True):
 
 
 def correspond(ctx):
-    run_cases(ctx, ctx.n(60, 1500))
+    run_cases(ctx, ctx.n(150, 1000))
 
 
 def search(ctx):
     run_cases(ctx, ctx.n(400, 6000), model=False)
 
 
+def _fix_op(op):
+    """Replay files store integers beyond 2**62 as decimal strings (common.jsonable)."""
+    for k in ("v", "pre", "post"):
+        if k in op:
+            op[k] = int(op[k])
+    for b in op.get("body", ()):
+        _fix_op(b)
+
+
 def replay(ctx, obj):
     case = obj["case"]
+    for prog in case["programs"]:
+        for op in prog:
+            _fix_op(op)
     world = World(ctx)
     trace = Run(world, case).go()
     bad, _ = oracle(trace, len(case["programs"]))
